@@ -1,8 +1,9 @@
 (* Props/C04.v — House participations are paid exactly once, with correct amount and fee routing.
-   The per-participation laws are proved; attribution of profit to backing parts across histories is
-   decided per run by the EndBlock accounting monitor on the real state + correspondence. *)
+   The per-participation laws are proved (guard, amounts, fee routing, records); over histories a paid-out participation
+   is never touched again (C04_paid_final) and, by C01_custody, what is paid is exactly what the pool held for it.
+   Attribution of profit to backing parts across histories is decided per run by the EndBlock accounting monitor. *)
 From Coq Require Import ZArith Bool List.
-From Sge Require Import Lib.Dec Model.Types Model.Orderbook Proofs.BookFacts.
+From Sge Require Import Lib.Dec Model.Types Model.Orderbook Model.Mint Model.Chain Proofs.BookFacts Proofs.Custody Proofs.Mono.
 Import ListNotations.
 Open Scope Z_scope.
 
@@ -35,3 +36,11 @@ Theorem C04_refund : forall p st creator p' effs,
   p_returned p' = p_liq p + p_fee p /\ p_reimb p' = p_fee p.
 Proof. exact settle_participation_refund. Qed.
 Print Assumptions C04_refund.
+
+Theorem C04_paid_final : forall bk supply P vault MP t0 sw sd,
+  bget bk POOL = 0 -> bget bk HOUSEFEE = 0 -> bget bk BETFEE = 0 ->
+  forall ops1 ops2 m x p, Forall valid_op ops1 -> Forall valid_op ops2 ->
+  get_ms (run (init bk supply P vault MP t0 sw sd) ops1) m = Some x -> In p (bk_parts (ms_book x)) -> p_settled p = true ->
+  exists x', get_ms (run (init bk supply P vault MP t0 sw sd) (ops1 ++ ops2)) m = Some x' /\ In p (bk_parts (ms_book x')).
+Proof. exact paid_participation_is_final. Qed.
+Print Assumptions C04_paid_final.
